@@ -270,3 +270,19 @@ Theorem next_prev_round_trip_restores : forall rnd L, lsets L <> [] -> uniform L
   (0 < idx s -> observe (run rnd L s [Prev; Next]) = observe s).
 Proof. exact next_prev_round_trip. Qed.
 Print Assumptions next_prev_round_trip_restores.
+
+(** two routes to the same reported index WITHOUT the uniformity hypothesis: time and step agree on every listing
+    with >= 1 result set; and every table all of whose cells are assigned at every result set shows the same
+    array (and exists) whatever the other tables do *)
+Theorem nav_same_index_same_time_step : forall rnd L, lsets L <> [] -> forall ops1 ops2,
+  idx (run rnd L (open L) ops1) = idx (run rnd L (open L) ops2) ->
+  tm (run rnd L (open L) ops1) = tm (run rnd L (open L) ops2) /\
+  sp (run rnd L (open L) ops1) = sp (run rnd L (open L) ops2).
+Proof. exact nav_same_index_same_tm_sp. Qed.
+Print Assumptions nav_same_index_same_time_step.
+Theorem nav_same_index_same_table_if_table_uniform : forall rnd L, lsets L <> [] -> forall k, uniform_table L k -> forall ops1 ops2,
+  idx (run rnd L (open L) ops1) = idx (run rnd L (open L) ops2) ->
+  nth_error (tabs (run rnd L (open L) ops1)) k = nth_error (tabs (run rnd L (open L) ops2)) k /\
+  nth_error (tabs (run rnd L (open L) ops1)) k <> None.
+Proof. exact nav_same_index_same_tab. Qed.
+Print Assumptions nav_same_index_same_table_if_table_uniform.
